@@ -117,16 +117,21 @@ class Gen:
                     if t.chance(0.4):
                         b = len(base)
                     st = t.choice([1, 1, 2, 2, 3])
-                    form = t.random()
+                    if len(base) >= 3 and t.chance(0.12):
+                        # the whole source, strided: first to last bound, only the step differs
+                        a, b, st = 0, len(base), t.choice([2, 2, 3])
+                        form = 0.0 * t.random()
+                    else:
+                        form = t.random()
                     start, stop, step = self.int_ref(a), self.int_ref(b), None
-                    if form < 0.5:
+                    if form < 0.45:
                         step = self.int_ref(st)
                         if isinstance(step, int):
                             # a let-valued step whenever a let of that value exists
                             c_ = [k for k, v in sorted(self.lets.items()) if isinstance(v, int) and v == st]
                             if c_ and t.chance(0.5):
                                 step = t.choice(c_)
-                    elif form < 0.5:
+                    elif form < 0.53:
                         start, a = None, 0
                     elif form < 0.65:
                         stop, b = None, len(base)
@@ -380,7 +385,9 @@ class Gen:
                 regs = [r_ for r_, mm in sorted(self.regs.items()) if len(mm) >= info["minsize"] and r_ not in params]
                 if not regs:
                     return None
-                args.append(["id", t.choice(regs)])
+                ali = [r_ for r_ in regs if r_ != self.rname]
+                # (an alias rather than the register itself more often than chance)
+                args.append(["id", t.choice(ali) if ali and t.chance(0.6) else t.choice(regs)])
         self.budget -= 1
         return {"k": "gate", "name": m["name"], "args": args}
 
@@ -504,7 +511,7 @@ class Gen:
         pnames = list(dict.fromkeys(pnames))
         info = {}
         for p in pnames:
-            kd = t.weighted([("q", 5), ("f", 3), ("i", 1.5), ("c", 1.5), ("r", 1)])
+            kd = t.weighted([("q", 5), ("f", 3), ("i", 1.5), ("c", 1.5), ("r", 2)])
             if p in self.regs and t.chance(0.7):
                 kd = "r"  # a parameter shadowing a register name, used as a register
             info[p] = {"kind": kd}
@@ -593,13 +600,23 @@ class Gen:
         if self.exec and prog["macros"] and t.chance(0.3):
             for _ in range(2):
                 m = t.choice(prog["macros"])
-                gates = [x for x in m["body"]["body"] if x["k"] == "gate" and x["name"] not in ("prepare_all", "measure_all")]
+                gates = [x for x in m["body"]["body"] if not (x["k"] == "gate" and x["name"] in ("prepare_all", "measure_all"))]
                 if not gates:
                     continue
                 g = copy.deepcopy(t.choice(gates))
                 cand = copy.deepcopy(prog)
                 subs = [x for x in cand["body"] if x["k"] == "sub"]
-                if subs and t.chance(0.6):
+
+                def brackets(x):
+                    if x["k"] == "sub" or (x["k"] == "gate" and x["name"] in ("prepare_all", "measure_all")):
+                        return True
+                    b = x.get("body")
+                    return brackets(b) if isinstance(b, dict) else any(brackets(y) for y in (b or []))
+
+                if brackets(g):
+                    # a whole subcircuit (or a loop around one) of a macro body, verbatim
+                    cand["body"].append(g)
+                elif subs and t.chance(0.6):
                     tgt = t.choice(subs)
                     tgt["body"].insert(t.randrange(len(tgt["body"]) + 1), g)
                 else:
